@@ -285,6 +285,10 @@ class Poly:
 NONNEG = set()    # keys of primitive polynomials declared non-negative
 
 
+GENERIC_ROOTS = [False]
+ROOT_ASSUMED = []
+
+
 def declare_nonneg(x):
     n, d = x.rational()
     xx = X.from_poly(n)
@@ -489,6 +493,8 @@ class X:
             else:
                 if Fr(e).denominator == 1 and e % 2 == 0:
                     ab = Atom("fn", "abs", (X.atom(a),), "pos"); m[ab] = m.get(ab, 0) + e * q
+                elif GENERIC_ROOTS[0] and a.tag == "pa":
+                    m[a] = m.get(a, 0) + e * q
                 else:
                     raise Unknown(f"fractional power of signed atom {a}")
         p = {}
@@ -500,6 +506,9 @@ class X:
                 p[kk] = (pl, e * q)          # pl * conj(pl) = |pl|^2 >= 0: the conjugate pair takes the root together
             elif Fr(e).denominator == 1 and e % 2 == 0:
                 ab = Atom("fn", "abs", (X.from_poly(pl),), "pos"); m[ab] = m.get(ab, 0) + e * q
+            elif GENERIC_ROOTS[0]:
+                # client-declared generic regime: a root is only taken of quantities that are positive there (recorded as an assumption)
+                ROOT_ASSUMED.append(pl); p[kk] = (pl, e * q)
             else:
                 raise Unknown("fractional power of signed polynomial " + repr(pl))
         return X(ONE, m, p)
@@ -842,13 +851,18 @@ def mk_sum(var, count, body):
     if var not in body.fv():
         return count * body
     ci = count.as_int()
-    if ci is not None and 0 <= ci <= 8:
+    pure = ci is not None and ci <= 256 and body.fv() == {var} and all(a.tag == "v" for a in body.all_atoms())
+    if ci is not None and (0 <= ci <= 8 or pure):
+        # small counts, and power sums over a concrete range (a pure polynomial / rational function of the index), are expanded exactly
         res = X(ZERO)
         for i in range(ci): res = res + body.subst({var: X.const(i)})
         return res
     n, d = body.rational()
     if var in d.fv():
         return _sum_atom(var, count, body)
+    if FAULHABER[0]:
+        r_ = _faulhaber(var, count, body)
+        if r_ is not None: return r_
     res = X(ZERO)
     dx = X.from_poly(d)
     for m, c in n.t.items():
@@ -861,6 +875,33 @@ def mk_sum(var, count, body):
         else:
             res = res + outside * _sum_atom(var, count, X(ONE, dep))
     return res
+
+
+FAULHABER = [False]      # switched on by clients that prove identities of power sums over a symbolic range (orthonormality of closed-form bases)
+_FAUL = {0: [0, 1], 1: [0, Fr(-1, 2), Fr(1, 2)], 2: [0, Fr(1, 6), Fr(-1, 2), Fr(1, 3)], 3: [0, 0, Fr(1, 4), Fr(-1, 2), Fr(1, 4)],
+         4: [0, Fr(-1, 30), 0, Fr(1, 3), Fr(-1, 2), Fr(1, 5)], 5: [0, 0, Fr(-1, 12), 0, Fr(5, 12), Fr(-1, 2), Fr(1, 6)],
+         6: [0, Fr(1, 42), 0, Fr(-1, 6), 0, Fr(1, 2), Fr(-1, 2), Fr(1, 7)]}
+
+
+def _faulhaber(var, count, body):
+    """sum_{var<count} of a polynomial in var with var-free coefficients: closed form in count (sum_{i<N} i^p, p <= 6), or None."""
+    n, d = body.rational()
+    if var in d.fv(): return None
+    tot = X(ZERO); dx = X.from_poly(d)
+    for m, c in n.t.items():
+        p = 0; ind = {}
+        for a, e in m:
+            if a.tag == "v" and a.name == var:
+                if e.denominator != 1 or e < 0 or e > 6: return None
+                p = int(e)
+            elif var in a.fv: return None
+            else: ind[a] = e
+        cf = _FAUL[p]
+        power = X(ZERO)
+        for k_, ck in enumerate(cf):
+            if ck: power = power + X.const(ck) * _xpow(count, Fr(k_))
+        tot = tot + X(c, ind) / dx * power
+    return tot
 
 
 def _sum_atom(var, count, body):
